@@ -8,6 +8,7 @@ import (
 
 //verif:harness VerifC03_Truthy quick.maxpaths=20000 thorough.maxpaths=100000 timeout=1200
 //verif:harness VerifC03_Chain quick.maxpaths=60000 thorough.maxpaths=400000 timeout=2400
+//verif:harness VerifC03_Reuse quick.maxpaths=40000 thorough.maxpaths=200000 timeout=2400
 
 type zzC03Struct struct{ A int }
 
@@ -263,4 +264,98 @@ func VerifC03_Chain() {
 	zzNote("want", strings.Join(wantAll, " "))
 	zzNote("got", strings.Join(got, " "))
 	zzAssert(strings.Join(got, " ") == strings.Join(wantAll, " "), "C03.chain.first-truthy-branch")
+}
+
+// ---- the same condition text over differently typed data ----------------------------
+
+type zzC03ItemA struct {
+	On   bool
+	Name string
+}
+
+type zzC03ItemB struct {
+	Name string
+	On   bool
+}
+
+// zzC03Item builds an item whose field On has the given value, in one of
+// several Go shapes.
+func zzC03Item(shape int, on bool) any {
+	switch shape {
+	case 0:
+		return zzC03ItemA{On: on, Name: "a"}
+	case 1:
+		return zzC03ItemB{Name: "b", On: on}
+	case 2:
+		return map[string]any{"On": on, "Name": "m"}
+	}
+	return &zzC03ItemA{On: on, Name: "p"}
+}
+
+// zzC03Num builds the number v in one of several Go types.
+func zzC03Num(typ int, v int) any {
+	switch typ {
+	case 0:
+		return v
+	case 1:
+		return float64(v)
+	case 2:
+		return int64(v)
+	case 3:
+		return uint8(v)
+	}
+	return float32(v)
+}
+
+const zzC03ReuseTpl = `<p v-if="item.On">ON</p><p v-else>OFF</p>` +
+	`<q v-if="n == 1">ONE</q><q v-else-if="n == 2">TWO</q><q v-else>OTHER</q>` +
+	`<s v-show="!item.On">S</s>` +
+	`<b :class="{neg: n < 1}">B</b>` +
+	`<ul><li v-for="it in items"><i v-if="it.On">Y</i><i v-else>N</i></li></ul>`
+
+// VerifC03_Reuse: one engine evaluates the same condition texts in two
+// consecutive renders (and in one loop over mixed items) with data of
+// different Go types; every evaluation follows the truthiness rule for the
+// value it is given, whatever was evaluated before.
+func VerifC03_Reuse() {
+	// the values are concrete choices (not solver variables) so that the
+	// real expression VM, with its type-specialised opcodes, evaluates them
+	tpl := NewFS(nil)
+	var shapes, typs, vs [2]int
+	var ons [2]bool
+	var mixed []any
+	var wantLoop string
+	for round := 0; round < 2; round++ {
+		shapes[round] = zzChoice("shape", 4)
+		ons[round] = zzChoice("on", 2) == 1
+		typs[round] = zzChoice("typ", zzBound("numtypes", 3, 5))
+		vs[round] = zzChoice("v", 3) // 0, 1, 2
+		// the loop runs over the items of both rounds
+		mixed = append(mixed, zzC03Item(shapes[round], ons[round]))
+		if ons[round] {
+			wantLoop += "<li><i>Y</i></li>"
+		} else {
+			wantLoop += "<li><i>N</i></li>"
+		}
+	}
+	for round := 0; round < 2; round++ {
+		shape, on, typ, v := shapes[round], ons[round], typs[round], vs[round]
+		data := map[string]any{"item": zzC03Item(shape, on), "n": zzC03Num(typ, v), "items": mixed}
+		w := &zzWriter{limit: 1 << 20}
+		err := tpl.New().Fill(data).RenderString(contextBackground(), w, zzC03ReuseTpl)
+		out := zzFlat(string(w.got))
+		zzNote("out", out)
+		if err != nil {
+			zzNote("err", err.Error())
+		}
+		zzAssert(err == nil, "C03.reuse.render-error")
+		zzAssert(strings.Contains(out, "<p>ON</p>") == on, "C03.reuse.v-if-field")
+		zzAssert(strings.Contains(out, "<p>OFF</p>") == !on, "C03.reuse.v-else-field")
+		zzAssert(strings.Contains(out, "ONE") == (v == 1), "C03.reuse.v-if-comparison")
+		zzAssert(strings.Contains(out, "TWO") == (v == 2), "C03.reuse.v-else-if-comparison")
+		zzAssert(strings.Contains(out, "OTHER") == (v == 0), "C03.reuse.v-else-comparison")
+		zzAssert(strings.Contains(out, "display:none") == on, "C03.reuse.v-show-negation")
+		zzAssert(strings.Contains(out, `class="neg"`) == (v < 1), "C03.reuse.class-object")
+		zzAssert(strings.Contains(out, "<ul>"+wantLoop+"</ul>"), "C03.reuse.loop-over-mixed-items")
+	}
 }
